@@ -276,6 +276,23 @@ func c07body(p c07plan) func() {
 			vrt.Go(fmt.Sprintf("caller%d", i), caller)
 		}
 		vrt.WaitIdle()
+		// a request whose context was cancelled, once everything has settled, is not pending any more:
+		// whatever comes for its id later is a packet like any other
+		cancelledSettled := map[string]bool{}
+		if !p.sameID && !p.seqReuse {
+			for i, b := range p.behave {
+				id := fmt.Sprintf("req%d", i)
+				if b == "cancel" && results[i].done {
+					cancelledSettled[id] = true
+					end.router.IQResultRouteLock.RLock()
+					_, still := end.router.IQResultRoutes[id]
+					end.router.IQResultRouteLock.RUnlock()
+					if still {
+						vrt.Fail("C07|pending-entry-left-after-cancel", "%s: the context of request %s was cancelled and everything settled, yet the request is still registered as pending", p.name(), id)
+					}
+				}
+			}
+		}
 		if p.reuseCtx == "first-expires" {
 			vrt.Sleep(10 * time.Second)
 			vrt.WaitIdle()
@@ -395,6 +412,13 @@ func c07body(p c07plan) func() {
 			if strings.HasPrefix(r, "iq:") {
 				parts := strings.Split(r, ":")
 				ordinary[parts[1]]++
+			}
+		}
+		if p.respond == "late" {
+			for id := range cancelledSettled {
+				if ordinary[id] != 1 {
+					vrt.Fail("C07|late-response-after-cancel-not-routed", "%s: the response for %s arrived after its request had been cancelled and everything had settled; it reached the ordinary routes %d times (callers got %v)", desc, id, ordinary[id], delivered)
+				}
 			}
 		}
 		for id, n := range nResp {
